@@ -584,8 +584,15 @@ Definition ready_core (idxs : list nat) (vals : valset) (s : cstate) : Prop :=
   good_proposal E s p b /\ 0 <= r <= hv_round (cs_votes s) /\
   exists pv pc, lookup_round r (hv_sets (cs_votes s)) = Some (pv, pc) /\
     round_open idxs vals PREVOTE pv /\ round_open idxs vals PRECOMMIT pc.
+(* after the unlock rule of the prevote step (repair of F70): unlocked, or locked on the proposal *)
 Definition ready (idxs : list nat) (vals : valset) (s : cstate) : Prop :=
-  ready_core idxs vals s /\ lock_ok s.
+  ready_core idxs vals s /\ lock_ok (unlock_known r s).
+
+Lemma lock_ok_unlock_known s : lock_ok s -> lock_ok (unlock_known r s).
+Proof.
+  intro Lk. destruct (unlock_known_lock r s) as (U1 & U2 & U3). unfold lock_ok. rewrite U1, U2, U3.
+  destruct (unlock_fires r s); [left; reflexivity | exact Lk].
+Qed.
 
 Definition ready2 (idxs : list nat) (vals : valset) (s : cstate) : Prop :=
   exists pv pc, P2 idxs pv pc s /\ round_open idxs vals PREVOTE pv /\ round_open idxs vals PRECOMMIT pc.
@@ -610,6 +617,7 @@ Proof.
   { rewrite A3, (prevotes_lookup _ _ _ _ L). destruct Rv as (_ & _ & M & _). exact M. }
   destruct (Post Mj) as (-> & B1 & B2 & B3 & B4 & B5 & B6 & B7 & B8 & SL).
   destruct SL as (S1 & S2 & S3 & S4 & S5 & S6 & S7 & S8 & S9 & S10).
+  autorewrite with cs in S7.
   rewrite Hme, app_nil_r in Ho2. subst o1 o2. cbn [concat app]. split.
   - f_equal. rewrite A2, A3. f_equal. unfold Bid.
     destruct Lk as [Q|(Q1 & Q2 & _)].
@@ -621,7 +629,7 @@ Proof.
     apply (P2_intro idxs pv pc s2 (cs_votes s)); auto; try congruence.
     + destruct Gk as [Gk|Gk]; [left; lia|].
       destruct (Z_lt_le_dec (pr_polr p) 0); [left; assumption | right; split; [lia | exact Gk]].
-    + intros _. split; [left; exact B4|]. unfold lock_ok in *. rewrite S1, S2, S3. exact Lk.
+    + intros _. split; [left; exact B4|]. unfold lock_ok in *. rewrite S1, S2, S3, A3. exact Lk.
 Qed.
 
 Lemma phase2 idxs vals s ds s' os :
